@@ -50,7 +50,17 @@ def programs(tier):
                 # the divisions are the user's assertion: assume the data respects them
                 assume = lambda env, n_=n: [c for r in range(n_) for c in (env.cell("L", "a", r)[0] >= -100, env.cell("L", "a", r)[0] <= 100)]
             progs.append(Program(text, srcs, ordered=ordered, family="F06", note=text.split("(")[0], env_globals={"dx": dx}, assume=assume))
-    return progs
+            if "repartition(npartitions=" in text:
+                # integer divisions one apart: the interpolated boundaries of a count-based repartition collapse
+                narrow = [Src("L", n, LCOLS, nparts, how="delayed", cuts=cuts, divisions=tuple(range(nparts + 1)))]
+                for k in (nparts + 1, nparts + 3):
+                    progs.append(Program(f"L.repartition(npartitions={k})", narrow, ordered=ordered, family="F06", note="L.repartition/narrow-divisions", env_globals={"dx": dx}))
+    seen, uniq = set(), []
+    for p_ in progs:
+        if p_.name not in seen:
+            seen.add(p_.name)
+            uniq.append(p_)
+    return uniq
 
 
 def length_programs(tier):
